@@ -110,7 +110,54 @@ def nan_refused(c):
     return None
 
 
-SCENARIOS = {"csv_twice": csv_twice, "readonly_view_base": readonly_view_base, "nan_refused": nan_refused}
+def match_reads_reference(c):
+    """the series is re-sampled to a grid that does not contain the reference's abscissae (any n, or n a multiple plus a
+    bit), possibly after domain operations; then it is matched against the reference (default fixed points, found by
+    search).  Matching READS the reference: reference and original are afterwards bit for bit what they were, the
+    abscissae of the working series too, and a second matching of a fresh copy of the same state gives the same values"""
+    import copy
+    import warnings
+    from traffic_weaver import Weaver
+    x, y = _xy(c)
+    w = Weaver(x, y)
+    for op, a in c["pre"]:
+        if op == "recreate":
+            w.recreate_from_average(a)
+        elif op == "append":
+            w.append_one_sample(make_periodic=a)
+        else:
+            getattr(w, op)(a)
+    w.interpolate(n=c["n"], method=c["method"])
+    keep = [np.array(a, copy=True) for pair in (w.get_reference(), w.get_original()) for a in pair]
+    wx = np.array(w.get()[0], copy=True)
+    twin = copy.deepcopy(w)
+    with warnings.catch_warnings():
+        warnings.simplefilter("ignore")
+        try:
+            w.integral_match(**c["kw"])
+        except Exception as e:  # noqa
+            # too few samples between two reference positions for distinct fixed points: refused; nothing may have changed
+            after = [np.asarray(a) for pair in (w.get_reference(), w.get_original()) for a in pair]
+            if not all(a.dtype == b.dtype and _same(a, b) for a, b in zip(keep, after)):
+                return f"integral_match raised {type(e).__name__} and left the reference / original series changed"
+            return None
+        twin.integral_match(**c["kw"])
+    after = [np.asarray(a) for pair in (w.get_reference(), w.get_original()) for a in pair]
+    names = ("reference x", "reference y", "original x", "original y")
+    for nm, a, b in zip(names, keep, after):
+        if a.shape != b.shape or not _same(a, b):
+            i = next((j for j in range(min(len(a), len(b))) if a[j] != b[j]), -1)
+            return (f"integral_match() after interpolate(n={c['n']}) changed the {nm} series (sample {i}: "
+                    f"{a[i] if i >= 0 else len(a)!r} -> {b[i] if i >= 0 else len(b)!r}); matching only reads the reference")
+    if not _same(w.get()[0], wx):
+        return "integral_match() changed the abscissae of the working series"
+    if not _same(w.get()[1], twin.get()[1]):
+        return "integral_match() on a copy of the same state gives other values"
+    return None
+
+
+SCENARIOS = {"csv_twice": csv_twice, "readonly_view_base": readonly_view_base, "nan_refused": nan_refused,
+             "match_reads_reference": match_reads_reference}
 
 
 def gen(rng, name):
@@ -118,6 +165,18 @@ def gen(rng, name):
     c = {"scenario": name, "x": [str(v) for v in rng.increasing(n)], "y": [str(v) for v in rng.values(n)]}
     if name == "readonly_view_base":
         c["ops"] = rng.choice([[], ["shift_y"], ["slice"]])
+    if name == "match_reads_reference":
+        pre = []
+        for _ in range(rng.randint(0, 3)):
+            k = rng.choice(["shift_x", "scale_x", "shift_y", "scale_y", "append", "recreate"])
+            pre.append([k, {"shift_x": float(rng.dyadic(-8, 8, 4)), "scale_x": float(rng.choice([2, 0.5, 3])),
+                            "shift_y": float(rng.dyadic(-8, 8, 4)), "scale_y": float(rng.choice([2, -1, 0.5])),
+                            "append": rng.random() < 0.5, "recreate": rng.randint(2, 4)}[k]])
+        c["pre"] = pre
+        c["n"] = rng.choice([n * rng.randint(2, 5) + rng.randint(0, 3), rng.randint(2 * n, 6 * n), rng.randint(20, 60)])
+        c["method"] = rng.choice(["linear", "linear", "constant", "cubic"])
+        c["kw"] = rng.choice([{}, {}, {"alpha": 2.0}, {"target_function_integral_method": "rectangle"},
+                              {"fixed_points_finding_strategy": "lower"}, {"reference_function_integral_method": "trapezoid"}])
     if name == "nan_refused":
         c["nan_at"] = sorted({rng.randrange(n) for _ in range(rng.randint(1, 3))})
         c["n"] = rng.choice([1, 0, -2, 1.5])
